@@ -291,7 +291,8 @@ def check(run):
     seeds = [run.seed] if run.tier == "quick" else [run.seed, run.seed + 1]
     cases = []
     for s in seeds:
-        for name, n in (("spinqn", 4), ("holstein", 4)) if run.tier == "quick" else (("spinqn", 4), ("holstein", 4), ("spin", 3), ("spinqn", 5)):
+        # "-flux": complex Hermitian Hamiltonians (complex hopping amplitudes); the start states are real, so the schemes have to promote them themselves
+        for name, n in (("spinqn", 4), ("holstein", 4), ("spinqn-flux", 4)) if run.tier == "quick" else (("spinqn", 4), ("holstein", 4), ("spin", 3), ("spinqn", 5), ("spinqn-flux", 4), ("holstein-flux", 4)):
             for method in METHODS:
                 cases.append(("imag", name, n, method, s, run.tier))
         for nmol in (1, 2, (2, "degenerate"), (1, "twomodes")) + (((2, "twomodes"),) if run.tier != "quick" else ()):
